@@ -361,7 +361,7 @@ the printer, `ref_pos = position`, `seg_pos = 0` in the reader — each next to 
 theorem C11_gen_cigar_steps :
     Gen.C11.writerGuards = [("mask-and", "", "ValueError"), ("diff-not", "1", "ValueError"), ("GtE", "var", "ValueError"),
       ("Lt", "0", "ValueError"), ("mask-and-not", "", "ValueError")] ∧
-    Gen.C11.readerRaises = ["ValueError", "ValueError", "ValueError"] ∧
+    Gen.C11.readerRaises = ["ValueError"] ∧
     (Gen.C11.startClipIndex, Gen.C11.endClipIndex, Gen.C11.endClipMinus) = (0, -1, 1) ∧
     clips 5 [(some 0, some 1), (some 1, some 2)] = .ok (some (1, 2)) ∧
     (Gen.C11.trimLower, Gen.C11.trimUpper, Gen.C11.trimPlus) = (0, -1, 1) ∧
@@ -394,7 +394,7 @@ theorem C11_gen_alignment_guards :
     Gen.C11.facts.lookup "get_pairwise_sequence_identity.modes" = some "'all','not_terminal','shortest'" ∧
     Gen.C11.facts.lookup "get_sequence_identity.guards" = some "stop LtE start ValueError" ∧
     Gen.C11.facts.lookup "get_pairwise_sequence_identity.guards" = some "stop LtE start ValueError" ∧
-    Gen.C11.facts.lookup "get_sequence_identity.raises" = some "ValueError,ValueError" ∧
+    Gen.C11.facts.lookup "get_sequence_identity.raises" = some "ValueError" ∧
     Gen.C11.facts.lookup "get_sequence_identity.match" = some "one symbol in the column and not -1" ∧
     Gen.C11.facts.lookup "remove_terminal_gaps.guard" = some "stop Lt start ValueError" ∧
     -- stop = start: identity refuses (`<=`), remove_terminal_gaps returns the empty alignment (`<`)
@@ -415,7 +415,7 @@ theorem C11_gen_alignment_score :
     Gen.C11.facts.lookup "getitem.raises" = some "IndexError" ∧
     Gen.C11.facts.lookup "getitem.integerTest" = some "numbers.Integral in the 1-D and the 2-D branch" ∧
     Gen.C11.facts.lookup "get_alignment.replace" = some "'-','';char,'-'" ∧
-    Gen.C11.facts.lookup "get_alignment.loops" = some "outer=additional_gap_chars;inner=strings" ∧
+    Gen.C11.facts.lookup "get_alignment.loops" = some "every additional gap character is replaced in the current text" ∧
     Gen.C11.facts.lookup "set_alignment.guard" = some "len(rows) NotEq len(seq_names) ValueError" := by decide
 
 /-- multiple.pyx: the leaf returns a **copy**; rows of the first child are rewritten along trace column 0, of the second along
